@@ -432,8 +432,7 @@ def sym_line(idx, case, want_c06=True):
         f.append(f'reqmask={opt(None if kw.get("mask") is None else int(kw["mask"]))}')
     if parts is not None and len(parts) == 1:
         f.append(f'content={hexs(parts[0][0])} reqmode={opt(parts[0][1])}')
-        if q.mode is not None:
-            f.append(f'emode={MODES[q.mode]}')
+    f.append(f'emode={MODES[q.mode] if q.mode is not None else "-"}')
     return ' '.join(f)
 
 
